@@ -30,7 +30,7 @@ RULE = ('proc cases: a corpus text (window, 0-2 small edits) x P sampled positio
         'Non-trivial: >= 10 query comparisons with a non-empty answer; distinct by text digest.')
 ASSUMPTIONS = c01.ASSUMPTIONS + ['normal form of vf/norm.py is the observable result',
                                  'goto and help compared as sets (order unspecified)']
-SIZES = {'quick': (90, 150, 5), 'thorough': (1500, 2500, 10)}
+SIZES = {'quick': (60, 100, 5), 'thorough': (1500, 2500, 10)}
 TIMEOUT = {'quick': 1500, 'thorough': 5 * 3600}
 METHODS = ['complete', 'infer', 'goto', 'goto_follow', 'help', 'get_references_file',
            'get_signatures', 'get_context', 'complete_fuzzy']
@@ -291,7 +291,23 @@ def run_repeat(spec):
             seq += dependent
     for _ in range(spec['rounds']):
         seq.append(rnd.choice(pool) if rnd.random() < 0.75 else rnd.choice(failing))
-    for q in seq:
+    from vf import work
+    aborted = 0
+    for step, q in enumerate(seq):
+        # a failing query in between: some queries are aborted at a random depth by the work
+        # budget (a BaseException raised inside jedi, like an interrupt or a RecursionError would
+        # be); switches restored in finally blocks must survive that, and later answers too
+        # (only in the random cases and only in the second half of the sequence, so that the
+        # directed cases and the first half stay free of it)
+        if not fixed_pos and step >= len(seq) // 2 and rnd.random() < 0.2:
+            victim = rnd.choice(pool)
+            try:
+                with work.measure(rnd.choice([300, 2000, 10000, 40000])):
+                    norm.run_query(script, victim[0], victim[1], victim[2], roots)
+            except work.WorkBudgetExceeded:
+                aborted += 1
+                rec.ev('c16:queries_aborted_midway')
+            check_invariants(rec, script, dict(w, after_aborted=list(victim)))
         ans = norm.run_query(script, q[0], q[1], q[2], roots)
         check_invariants(rec, script, dict(w, after=list(q)))
         if q in failing:
@@ -300,7 +316,11 @@ def run_repeat(spec):
         key = norm.canon(q[0], ans.get('ok')) if 'ok' in ans else json.dumps(ans)
         rec.ev('c16:repeat_comparisons')
         if key != first[q]:
-            rec.violate('c16:repeat:' + q[0], 'query %s at %s:%s answered differently after other queries on '
+            exc_side = str(first[q]).startswith('{"exc"') or str(key).startswith('{"exc"')
+            rec.violate('c16:repeat_after_aborted_query' if aborted else
+                        'c16:repeat:query_that_raises_an_internal_exception' if exc_side else
+                        'c16:repeat:budget_exhausting_query_after_another' if exhausting and q in exhausting
+                        else 'c16:repeat:' + q[0], 'query %s at %s:%s answered differently after other queries on '
                         'the same Script than on a Script asked nothing else' % q, first=str(first[q])[:600],
                         now=str(key)[:600], text=text[:6000], **w)
     res['violations'] = rec.violations
